@@ -9,7 +9,7 @@ can be stored in replay files:
   ('copy', m, e, m2)                  objs[m][e].copy(vmf_file=maps[m2])   (new detached object of map m2)
   ('new', m, kvs)                     Entity(maps[m], keys=dict(kvs))      (new detached object)
   ('create', m, cls, kvs)             maps[m].create_ent(cls, **dict(kvs))
-  ('add', m, e) ('adds', m, [e..]) ('rem', m, e, via_entity)
+  ('add', m, e) ('adds', m, [e..], form) ('rem', m, e, via_entity)      form: gen | iter | map | list | tuple
   ('set', m, e, k, v) ('del', m, e, k) ('dels', m, e, [k..]) ('pop', m, e, k) ('popitem', m, e)
   ('setdefault', m, e, k, v) ('update', m, e, kvs) ('clear', m, e) ('uniq', m, e, prefix) ('export', m)
   ('probe', m, which, key)            evaluate maps[m].by_class[key] / by_target[key]: a defaultdict read, which leaves
@@ -94,7 +94,20 @@ class World:
         elif k == 'add':
             vmf.add_ent(objs[op[2]])
         elif k == 'adds':
-            vmf.add_ents(objs[e] for e in op[2])
+            # the iterable is passed in one of the forms callers use: one-shot (generator, iterator, map object)
+            # or re-iterable (list, tuple); replays written before round 3 have no form field (= generator)
+            form = op[3] if len(op) > 3 else 'gen'
+            items = [objs[e] for e in op[2]]
+            if form == 'list':
+                vmf.add_ents(items)
+            elif form == 'tuple':
+                vmf.add_ents(tuple(items))
+            elif form == 'iter':
+                vmf.add_ents(iter(items))
+            elif form == 'map':
+                vmf.add_ents(map(objs.__getitem__, op[2]))
+            else:
+                vmf.add_ents(objs[e] for e in op[2])
         elif k == 'rem':
             if op[3]:
                 objs[op[2]].remove()
